@@ -140,6 +140,8 @@ pub enum Act {
     Fund,
     SinkFail { on: bool },
     IncAllow { by: u8, amt: u8 },
+    /// MemberChangedHook sent to the flex multisig directly by somebody who is not its group
+    HookDirect { by: u8 },
 }
 
 #[derive(Clone, Debug, Default)]
@@ -193,6 +195,9 @@ pub struct Cfg {
     pub purse: u128,
     /// C03: also require that a Passed proposal is admitted by Execute (configs without messages/deposit/executor)
     pub exec_iff: bool,
+    /// flex: the multisig is registered as a hook of its group (every accepted UpdateMembers is followed,
+    /// in the same transaction, by a MemberChangedHook call into the multisig)
+    pub hooked: bool,
 }
 
 impl Cfg {
@@ -228,6 +233,7 @@ impl Cfg {
             max_fund: 0,
             purse: 0,
             exec_iff: false,
+            hooked: false,
         }
     }
     pub fn addr(&self, i: u8) -> String {
@@ -888,6 +894,7 @@ fn label(a: &Act) -> String {
         Act::Close { .. } => "Close",
         Act::Advance => "AdvanceBlock",
         Act::GroupUpdate { .. } => "GroupUpdateMembers",
+        Act::HookDirect { .. } => "MemberChangedHookDirect",
         Act::Fund => "FundMultisig",
         Act::SinkFail { .. } => "ToggleReceiverFailure",
         Act::IncAllow { .. } => "Cw20IncreaseAllowance",
@@ -964,6 +971,12 @@ impl Model for Cw3Model {
             };
             let o = w.instantiate(vt_flex(), &ms(), &creator, &to_json_vec(&im).unwrap(), &[]);
             ok = o.ok();
+            if ok && cfg.hooked {
+                let h = w.execute_json(&cfg.addr(cfg.group_admin), &group(), &cw4_group::msg::ExecuteMsg::AddHook { addr: ms() }, &[]);
+                if !h.ok() {
+                    v.push(Violation::new("cfg.add_hook_refused", "group admin could not register the multisig as a hook".into()));
+                }
+            }
         } else {
             w.advance(1, DT);
             let im = cw3_fixed_multisig::msg::InstantiateMsg {
@@ -1040,6 +1053,9 @@ impl Model for Cw3Model {
                 }
             }
         }
+        if cfg.hooked && !s.r.props.is_empty() {
+            out.push(Act::HookDirect { by: cfg.group_admin });
+        }
         if s.r.funded < cfg.max_fund {
             out.push(Act::Fund);
         }
@@ -1115,6 +1131,13 @@ impl Model for Cw3Model {
                     r.changed_this_block = true;
                     r.edits += 1;
                 }
+            }
+            Act::HookDirect { by } => {
+                // claims that every snapshot voter lost its weight
+                let diffs: Vec<cw4::MemberDiff> = r.group_start.iter().map(|(i, wg)| cw4::MemberDiff::new(cfg.addr(*i), Some(*wg), None)).collect();
+                let m = cw3_flex_multisig::msg::ExecuteMsg::MemberChangedHook(cw4::MemberChangedHookMsg { diffs });
+                let o = w.execute_json(&cfg.addr(*by), &msa, &m, &[]);
+                ok = o.ok();
             }
             Act::IncAllow { by, amt } => {
                 let m = cw20::Cw20ExecuteMsg::IncreaseAllowance { spender: msa.clone(), amount: Uint128::new(*amt as u128), expires: None };
